@@ -11,9 +11,47 @@ def RowIsLens (k : Cls) (r : Row) : Prop :=
   ∃ acc, accOf k r.fld = some acc ∧
     ∀ v X : Nat, r.representable v = true → acc.set v X = r.put k.len v X ∧ acc.get X = r.get k.len X
 
-theorem rowCert_sound (k : Cls) (r : Row) (h : rowCert k r = true) : RowIsLens k r := by
-  unfold rowCert at h
+/-- the block walk reaches every row of the table: a certified table certifies each of its rows, with the class record
+    and the generated per-class tables that the name lookups (`classOf`, `genOf`) return -/
+theorem certSegs_mem (p : ClassGen → Cls → Row → Bool) : ∀ (segs : List (String × Nat)) (l : List Row),
+    certSegs p segs l = true → ∀ r ∈ l, ∃ k g, classOf r.cls = some k ∧ genOf r.cls = some g ∧ k.name = r.cls ∧ p g k r = true := by
+  intro segs
+  induction segs with
+  | nil =>
+    intro l h r hr
+    simp only [certSegs, List.isEmpty_iff] at h
+    subst h
+    cases hr
+  | cons sc segs ih =>
+    obtain ⟨n, c⟩ := sc
+    intro l h r hr
+    simp only [certSegs, Bool.and_eq_true] at h
+    obtain ⟨hb, hrest⟩ := h
+    rw [← List.take_append_drop c l, List.mem_append] at hr
+    rcases hr with hr | hr
+    · unfold blockCert at hb
+      split at hb
+      · rename_i k g hk hg
+        simp only [Bool.and_eq_true, beq_iff_eq, List.all_eq_true] at hb
+        obtain ⟨⟨hkn, _⟩, hall⟩ := hb
+        obtain ⟨hc, hp⟩ := hall r hr
+        refine ⟨k, g, ?_, ?_, ?_, hp⟩
+        · rw [hc]; exact hk
+        · rw [hc]; exact hg
+        · rw [hc]; exact hkn
+      · exact absurd hb (by simp)
+    · exact ih _ hrest r hr
+
+theorem rowCertIn_sound (g : ClassGen) (k : Cls) (r : Row) (hg : genOf k.name = some g) (h : rowCertIn g k r = true) :
+    r.spec.fits k.len = true ∧ RowIsLens k r := by
+  unfold rowCertIn at h
+  simp only [Bool.and_eq_true] at h
+  obtain ⟨hfit, h⟩ := h
+  refine ⟨hfit, ?_⟩
   unfold RowIsLens accOf
+  rw [hg]
+  simp only
+  unfold accOfIn
   split at h
   · rename_i a ha
     simp only [Bool.and_eq_true, beq_iff_eq] at h
